@@ -20,7 +20,7 @@
 typedef struct {
     char id[64], gen[16], out[512];
     int n, P, ps, relax, maxsuper, pert, order, dens, lowfill, kl, ku, vstyle, full, timeout, nrhs, last, fulldiag;
-    int refact, dyn, sym, nzc, zc[64]; long lwork; char focus[32]; int focuspct, focusus; int usepr, npermr, permr[256], zd, fill6, fill7, fill8;
+    int refact, dyn, sym, ie4, ie5, nzc, zc[64]; long lwork; char focus[32]; int focuspct, focusus; int usepr, npermr, permr[256], zd, fill6, fill7, fill8;
     unsigned long seed; double u; int par[4096]; int npar; char patstr[4096];
 } job_t;
 
@@ -58,6 +58,8 @@ static void parse_job(char *line, job_t *J)
 	else if (!strcmp(tok, "refact")) J->refact = atoi(v);
 	else if (!strcmp(tok, "dyn")) J->dyn = atoi(v);
 	else if (!strcmp(tok, "sym")) J->sym = atoi(v);
+	else if (!strcmp(tok, "ie4")) J->ie4 = atoi(v);       /* sp_ienv(4), sp_ienv(5): cut-offs of the 2-D blocked supernode-panel update */
+	else if (!strcmp(tok, "ie5")) J->ie5 = atoi(v);
 	else if (!strcmp(tok, "usepr")) J->usepr = atoi(v);
 	else if (!strcmp(tok, "zd")) J->zd = atoi(v);
 	else if (!strcmp(tok, "fill6")) J->fill6 = atoi(v);
@@ -114,6 +116,7 @@ static int run_job(job_t *J)
     G(Create_CompCol_Matrix)(&A, n, n, M.nnz, M.val, M.rowind, M.colptr, SLU_NC, SLU_DT, SLU_GE);
     cksA[0] = fnv(M.val, sizeof(SCALAR) * M.nnz); cksA[1] = fnv(M.rowind, sizeof(int_t) * M.nnz); cksA[2] = fnv(M.colptr, sizeof(int_t) * (n + 1));
     vrt_ienv[1] = J->ps; vrt_ienv[2] = J->relax; vrt_ienv[3] = J->maxsuper;
+    if (J->ie4) vrt_ienv[4] = J->ie4; if (J->ie5) vrt_ienv[5] = J->ie5;
     if (J->fill6) vrt_ienv[6] = J->fill6; if (J->fill7) vrt_ienv[7] = J->fill7; if (J->fill8) vrt_ienv[8] = J->fill8;
     perm_c = intMalloc(n); perm_r = intMalloc(n);
     if (J->order < 0) for (i = 0; i < n; ++i) perm_c[i] = i; else get_perm_c(J->order, &A, perm_c);
